@@ -290,6 +290,9 @@ class RefArchive:
         offs = struct.unpack("<%dI" % ntab, tab)
         if trace is not None:
             trace["offsets"] = offs
+        # the sector table's last entry is the end of the stored block: it must equal the block table's compressed size
+        if not flags & FLAG_SECTOR_CRC and offs[nsec] != csize:
+            raise RefError("block table compressed_size %d != end of last sector %d" % (csize, offs[nsec]))
         out = bytearray()
         for i in range(nsec):
             a, b = offs[i], offs[i + 1]
